@@ -470,6 +470,13 @@ def _loop_scenarios(tier: str) -> list[Any]:
                                            settings={'persistence__consistency_timeout': 5.0}, delays=False, early_user=False, time_dev=False))
                     out.append(C04Loop(handlers=handlers, user=user, horizon=6.0 + 5 * len(ed) + 25, bare=bare, storage=storage, sub=sub,
                                        settings={'persistence__consistency_timeout': 5.0}, delays=False, early_user=False, time_dev=False))
+    # the operator also serves ANOTHER kind whose handlers are narrowed to status / metadata fields: nothing of that is essential here
+    for ed in ([('status', 'a', 1)], [('status', 'a', 1), ('spec', 'a', 2), ('status', 'a', 2)], [('addfin', 'a', 'other/fin'), ('status', 'a', 1), ('delfin', 'a', 'other/fin')]):
+        user = [(1.0, 'create', 'a')] + [(6.0 + 5 * i, *a) for i, a in enumerate(ed)]
+        handlers = [dict(id='c1', on='create', script=['ok']), dict(id='u1', on='update', script=['ok'])]
+        out.append(C04Loop(handlers=handlers, user=user, horizon=6.0 + 5 * len(ed) + 25, bare=False, storage='annotations', sub=False,
+                           other_kind_handlers=[dict(id='w1', on='update', field='status'), dict(id='w2', on='field', field='metadata.finalizers')],
+                           settings={'persistence__consistency_timeout': 5.0}, delays=False, early_user=False, time_dev=False))
     # a handler on the whole status stanza while the framework keeps its own records there (status storages), in cycles with retries
     # (a waiting handler makes the framework "touch" the object): own records and touches are not changes, the user's status edits are
     for sub in (False, True):
